@@ -3,6 +3,7 @@ import os
 from .. import core, cfgs
 
 def run(ctx):
+    ctx.kats(["KAT_SM4"], seed_const=("GF2Agree", "BigNatAgree"))
     out = os.path.join(ctx.scratch, "c02.ndjson")
     quick = ctx.tier == "quick"
     shards = 4 if quick else 12
